@@ -8,7 +8,8 @@ import (
 
 // Generator of seeded random histories: consensus-like flows (INIT votes, suffrage-confirm
 // votes after an expel, ACCEPT votes, next height) with deviations (old, duplicate, future and
-// conflicting ballots, embedded voteproofs that are canonical, missing or adversarial,
+// conflicting ballots, embedded voteproofs that are canonical, missing or adversarial (also forged
+// ones that carry the ID and stage point of the canonical voteproof: an ID is chosen by the sender),
 // explicit SetLastPoint / Count calls, reads of Voted / MissingNodes), ACCEPT ballots that
 // arrive late (after the INIT ballots of the next round or height), voters that disagree on
 // the expels (a draw the box holds back) and runs of the box's ticker (Tick: held records
@@ -52,12 +53,16 @@ func (g *gen) prevVP(b BallotSpec) VPSpec {
 			v.Votes = append(v.Votes, []string{n, b.F})
 		}
 
+		v.ID = "id|" + v.Name
+
 		return v
 	case b.R == 0:
 		v := VPSpec{Name: fmt.Sprintf("A|%d|0|A|", b.H-1), H: b.H - 1, R: 0, S: sACCEPT, T10: g.t10}
 		for _, n := range g.names {
 			v.Votes = append(v.Votes, []string{n, "A"})
 		}
+
+		v.ID = "id|" + v.Name
 
 		return v
 	default:
@@ -66,19 +71,32 @@ func (g *gen) prevVP(b BallotSpec) VPSpec {
 			v.Votes = append(v.Votes, []string{n, []string{"A", "B", "C"}[i%3]})
 		}
 
+		v.ID = "id|" + v.Name
+
 		return v
 	}
 }
 
 // an embedded voteproof that must not be forwarded, or that is for an unexpected point
 func (g *gen) oddVP(b BallotSpec) VPSpec {
-	switch g.rng.Intn(5) {
+	switch g.rng.Intn(6) {
+	case 5: // the ID (a free string) and the stage point of the canonical voteproof, signed by keys outside the suffrage
+		v := g.prevVP(b)
+		v.Name = "coll|" + v.Name
+		for i := range v.Votes {
+			v.Votes[i] = []string{[]string{"x7", "x8", "x9"}[i%3], "B"}
+		}
+
+		v.ForceMF = "B"
+
+		return v
 	case 0: // one signer claiming a majority
 		return VPSpec{Name: fmt.Sprintf("odd1|%d|%d|%d|%s", b.H, b.R, b.S, b.Node), H: b.H, R: b.R, S: sINIT, T10: g.t10,
 			Votes: [][]string{{b.Node, "A"}}, ForceMF: "A"}
 	case 1: // threshold below the box's
 		v := g.prevVP(b)
 		v.Name = "lowth|" + v.Name
+		v.ID = ""
 		v.T10 = 510
 
 		return v
@@ -92,12 +110,14 @@ func (g *gen) oddVP(b BallotSpec) VPSpec {
 	case 3: // a signer outside the suffrage
 		v := g.prevVP(b)
 		v.Name = "out|" + v.Name
+		v.ID = ""
 		v.Votes = append(v.Votes, []string{"x9", "A"})
 
 		return v
 	default: // claimed draw although everybody agrees
 		v := g.prevVP(b)
 		v.Name = "fdraw|" + v.Name
+		v.ID = ""
 		v.ForceMF = "draw"
 
 		return v
